@@ -102,6 +102,30 @@ def check_case_oracle(case, sw, ob, table, baseline=None, base_ob=None):
                 other = next((n for n, dl in decl.items() if dl == line), "?")
                 return (f"cycle-line:{code}", f"{code} {msg!r} is attributed to line {line}, where {other} is declared; "
                                               f"{m.group(1)} is declared on line {decl[m.group(1)]}")
+    # WRONG_ARG_COUNT quotes (function, number of arguments WRITTEN in the call, number of parameters DECLARED): every such
+    # diagnostic must match a call of the input text, whatever happens to the call's arguments when they are resolved
+    if case.proto and any(x[0] == "WRONG_ARG_COUNT" for x in ob["diags"]):
+        params, calls = {}, set()
+        for l in case.proto:
+            w = l.split()
+            if w[0] == "func" and len(w) == 4:
+                params[w[1]] = int(w[3])
+            elif w[0] == "alg" and w[1] == "function":
+                params[w[2]] = int(w[4])
+            elif w[0] == "call" and len(w) == 3:
+                calls.add((w[1], int(w[2])))
+            elif w[0] == "callwith":
+                calls.add((w[1], 0 if w[2] == "-" else len(w[2].split(","))))
+            elif w[0] == "bareattr":
+                calls.add((w[1], 0))                   # a function named without an argument list is a call with no arguments
+        for (code, f, line, msg, is_err) in ob["diags"]:
+            m = re.match(r"Call to (\S+) uses (-?\d+) arguments, but expected (-?\d+)\.$", msg) if code == "WRONG_ARG_COUNT" else None
+            if m and m.group(1) in params:
+                fn, used, exp = m.group(1), int(m.group(2)), int(m.group(3))
+                written = sorted(n for g, n in calls if g == fn)
+                if exp != params[fn] or used == exp or used not in written:
+                    return ("arg:WRONG_ARG_COUNT", f"WRONG_ARG_COUNT printed as {msg!r}; {fn} is declared with {params[fn]} parameter(s) and the "
+                                                   f"input calls it with {written} argument(s)")
     enabled_warnings = bool(sw)          # without -w/-i every warning is switched off
     for code, args in case.expect:
         if table.is_warning(code):
